@@ -255,6 +255,12 @@ func genValueInterface(n *node) func(*frame) reflect.Value {
 			return v
 		}
 
+		if v.IsValid() && v.CanAddr() {
+			// The interface value holds a copy of the variable, not the variable itself.
+			c := reflect.New(v.Type()).Elem()
+			c.Set(v)
+			v = c
+		}
 		return reflect.ValueOf(valueInterface{nod, v})
 	}
 }
